@@ -50,6 +50,10 @@ def havoc_locations(eng, st, locs):
                 st = st.setobj(loc[1].oid, rec)
             n = fresh("hv_len", z3.IntSort())
             st = st.updobj(loc[1].oid, len=n, elem=fresh("hv_elem", rec["elem"].sort())).assume(n >= 0)
+        elif kind == "tlist":
+            rec = st.objs[loc[1].oid]
+            n = fresh("hv_len", z3.IntSort())
+            st = st.updobj(loc[1].oid, len=n, cols=[fresh("hv_col", c.sort()) for c in rec["cols"]]).assume(n >= 0)
         elif kind == "dict":
             rec = st.objs[loc[1].oid]
             if rec.get("lazy"):
@@ -176,7 +180,7 @@ def invariant_for(eng, node, st, fid, seq, spec, ordn):
     res = []
     n = seq.n
     E0 = spec_env(eng, st)
-    eng.oblige(st, spec.inv(E0, LoopCtx(z3.IntVal(0), n, st, seq, fid, st)), f"loop#{ordn}/inv-init", kind="loop")
+    eng.oblige_split(st, spec.inv(E0, LoopCtx(z3.IntVal(0), n, st, seq, fid, st)), f"loop#{ordn}/inv-init", kind="loop")
     names = assigned_names([node.target] + node.body)
     locs = spec.modifies(E0, LoopCtx(z3.IntVal(0), n, st, seq, fid, st)) if spec.modifies else []
     # arbitrary iteration
@@ -208,7 +212,7 @@ def exec_while(eng, node, st, fid):
     if spec is None:
         raise Unsupported(f"while loop #{ordn} at line {node.lineno} has no invariant")
     res = []
-    eng.oblige(st, spec.inv(spec_env(eng, st), LoopCtx(None, None, st, None, fid, st)), f"loop#{ordn}/inv-init", kind="loop")
+    eng.oblige_split(st, spec.inv(spec_env(eng, st), LoopCtx(None, None, st, None, fid, st)), f"loop#{ordn}/inv-init", kind="loop")
     names = assigned_names(node.body)
     locs = spec.modifies(spec_env(eng, st), LoopCtx(None, None, st, None, fid, st)) if spec.modifies else []
 
